@@ -237,6 +237,7 @@ type c05Case struct {
 	Shared   []string  `json:"shared,omitempty"` // datasets that several writers create at the same rendezvous
 }
 
+const c05FlipID = gen.NsA + "flip" // written with two contents only (tags flipX / flipY): identical re-writes happen
 const c05PairID = gen.NsA + "pair" // written only by transactions, to both datasets, same tag
 const c05TwinA = gen.NsA + "twinA" // always written together in one batch
 const c05TwinB = gen.NsA + "twinB"
@@ -295,6 +296,36 @@ func genC05Case(r *rand.Rand, clients, readers, opsPer int, churn bool) c05Case 
 			if cl != 0 && i%4 == 1 {
 				// a new id into the dataset that is being renamed back and forth (whatever its name is right now)
 				ops = append(ops, c05Op{Client: cl, Kind: "rnwrite", DS: []string{"rnA", "rnB"}, IDs: []string{fmt.Sprintf("%srn-%d-%d", gen.NsA, cl, i)}, Tag: tag})
+				continue
+			}
+			if i%10 == 8 && cl == 0 {
+				// a dataset that is written (long batch), renamed and deleted by three clients at the next rendezvous
+				ops = append(ops, c05Op{Client: cl, Kind: "mkds", DS: []string{fmt.Sprintf("rd%d", i+1)}, IDs: []string{ids[0]}, Tag: tag})
+				continue
+			}
+			if i%10 == 9 && cl < 3 {
+				d := fmt.Sprintf("rd%d", i)
+				switch cl {
+				case 0:
+					var l []string
+					for j := 0; j < 400; j++ {
+						l = append(l, fmt.Sprintf("%srd-%d-%d", gen.NsA, i, j))
+					}
+					ops = append(ops, c05Op{Client: cl, Kind: "batch", DS: []string{d}, IDs: l, Tag: tag, Sync: 1000 + i})
+				case 1:
+					ops = append(ops, c05Op{Client: cl, Kind: "rename1", DS: []string{d, d + "x"}, Sync: 1000 + i})
+				case 2:
+					ops = append(ops, c05Op{Client: cl, Kind: "rmds", DS: []string{d}, Sync: 1000 + i})
+				}
+				continue
+			}
+			// the flip entity: written with one of two contents only, by batches and transactions alike
+			if i%10 == 1 {
+				if r.Intn(2) == 0 {
+					ops = append(ops, c05Op{Client: cl, Kind: "batch", DS: []string{"da"}, IDs: []string{c05FlipID}, Tag: []string{"flipX", "flipY"}[r.Intn(2)]})
+				} else {
+					ops = append(ops, c05Op{Client: cl, Kind: "txn", DS: []string{"da", "db"}, IDs: []string{c05FlipID}, Tag: []string{"flipX", "flipY"}[r.Intn(2)]})
+				}
 				continue
 			}
 			if churn && i%3 == 2 {
@@ -599,8 +630,14 @@ loop:
 	if prop == "C03" || prop == "C05" {
 		c05FinalRelations(ctx, id, prop, core, c)
 	}
-	if prop == "C05" || prop == "C19" {
+	if prop == "C05" || prop == "C19" || prop == "C07" || prop == "C04" {
 		c05SharedDatasets(ctx, id, prop, core, c, recs)
+	}
+	if prop == "C05" || prop == "C07" {
+		c05DeletedStayDeleted(ctx, id, prop, core)
+	}
+	if prop == "C05" || prop == "C02" {
+		c05NoAdjacentDuplicates(ctx, id, prop, core)
 	}
 	if prop == "C05" {
 		if msg := crossIndexInvariant(core); msg != "" {
@@ -718,8 +755,10 @@ func tagOf(r *obs.Rec) string {
 }
 
 var (
-	c05SeenMu sync.Mutex
-	c05Seen   = map[string]map[string]bool{}
+	c05DeletedMu  sync.Mutex
+	c05DeletedIDs = map[string][]uint32{} // per case (core pointer): internal ids of datasets whose delete was acknowledged
+	c05SeenMu     sync.Mutex
+	c05Seen       = map[string]map[string]bool{}
 )
 
 func c05Do(core *hub.Core, op c05Op, rec *c05Rec, visMu *sync.Mutex, vis *[]string) {
@@ -776,6 +815,14 @@ func c05Do(core *hub.Core, op c05Op, rec *c05Rec, visMu *sync.Mutex, vis *[]stri
 		if err := StoreBatch(core, op.DS[0], []model.Ent{c05Ent(op.IDs[0], op.Tag, 0)}, false); err != nil {
 			rec.err = err.Error()
 		}
+	case "rename1":
+		if core.Dsm.GetDataset(op.DS[0]) == nil {
+			rec.err = "no such dataset"
+			return
+		}
+		if _, err := core.Dsm.UpdateDataset(op.DS[0], &server.UpdateDatasetConfig{ID: op.DS[1]}); err != nil {
+			rec.err = err.Error()
+		}
 	case "rename":
 		for k, n := range op.DS {
 			if core.Dsm.GetDataset(n) != nil {
@@ -796,10 +843,17 @@ func c05Do(core *hub.Core, op c05Op, rec *c05Rec, visMu *sync.Mutex, vis *[]stri
 		}
 		rec.err = "dataset is between two names"
 	case "rmds":
-		if core.Dsm.GetDataset(op.DS[0]) != nil {
+		if ds := core.Dsm.GetDataset(op.DS[0]); ds != nil {
+			iid := ds.InternalID
 			if err := core.Dsm.DeleteDataset(op.DS[0]); err != nil {
 				rec.err = err.Error()
+			} else {
+				c05DeletedMu.Lock()
+				c05DeletedIDs[fmt.Sprintf("%p", core)] = append(c05DeletedIDs[fmt.Sprintf("%p", core)], iid)
+				c05DeletedMu.Unlock()
 			}
+		} else {
+			rec.err = "no such dataset"
 		}
 	case "lookup":
 		rec.t0 = time.Now().UnixNano()
@@ -967,11 +1021,25 @@ func c05FeedOrder(ctx *Ctx, id string, core *hub.Core, c c05Case, recs [][]*c05R
 			ctx.Out.Viol(id, "C05", "feed-error", err.Error(), nil, nil, nil)
 			continue
 		}
+		// (the flip entity carries one of two tags over and over: it has its own rule, c05NoAdjacentDuplicates)
+		fullFeed := feed
+		{
+			var f2 []obs.Rec
+			for i := range feed {
+				if feed[i].ID != c05FlipID {
+					f2 = append(f2, feed[i])
+				}
+			}
+			feed = f2
+		}
 		// expected writes on this dataset
 		exp := map[string]wr{}
 		maybe := map[string]string{} // writes that returned an error: they may or may not have taken effect
 		for _, rs := range recs {
 			for _, r := range rs {
+				if len(r.op.IDs) > 0 && r.op.IDs[0] == c05FlipID {
+					continue
+				}
 				if (r.op.Kind == "batch" || r.op.Kind == "txn") && r.err != "" {
 					maybe[r.op.Tag] = r.err
 				}
@@ -1062,8 +1130,8 @@ func c05FeedOrder(ctx *Ctx, id string, core *hub.Core, c c05Case, recs [][]*c05R
 		ctx.Out.Stat("feed_blocks_checked", int64(len(blocks)))
 		// latest view = fold of the feed
 		lastOf := map[string]*obs.Rec{}
-		for i := range feed {
-			lastOf[feed[i].ID] = &feed[i]
+		for i := range fullFeed {
+			lastOf[fullFeed[i].ID] = &fullFeed[i]
 		}
 		l, _ := obs.Listing(st, ds, 0)
 		if len(l) != len(lastOf) {
@@ -1086,6 +1154,9 @@ func c05EmitRegisters(ctx *Ctx, id string, c c05Case, recs [][]*c05Rec) {
 		for _, r := range rs {
 			switch r.op.Kind {
 			case "batch", "txn":
+				if len(r.op.IDs) > 0 && r.op.IDs[0] == c05FlipID {
+					continue
+				}
 				ret := r.ret
 				if r.err != "" {
 					// an operation that returned an error may still have taken effect (or take effect later):
@@ -1390,5 +1461,57 @@ func c05SharedDatasets(ctx *Ctx, id, prop string, core *hub.Core, c c05Case, rec
 		}
 		ctx.Out.Stat("concurrently_created_datasets_checked", 1)
 		ctx.Out.Stat("writes_after_concurrent_create_checked", int64(len(acked)))
+	}
+}
+
+// c05DeletedStayDeleted: a dataset whose delete was acknowledged is reachable under no name afterwards (a rename that
+// was waiting for the dataset while it was deleted must not bring it back), and nothing of it is served.
+func c05DeletedStayDeleted(ctx *Ctx, id, prop string, core *hub.Core) {
+	c05DeletedMu.Lock()
+	dead := map[uint32]bool{}
+	for _, i := range c05DeletedIDs[fmt.Sprintf("%p", core)] {
+		dead[i] = true
+	}
+	delete(c05DeletedIDs, fmt.Sprintf("%p", core))
+	c05DeletedMu.Unlock()
+	for _, n := range core.Dsm.GetDatasetNames() {
+		ds := core.Dsm.GetDataset(n.Name)
+		if ds != nil && dead[ds.InternalID] {
+			l, _ := obs.Listing(core.Store, ds, 0)
+			ctx.Out.Viol(id, prop, "deleted-dataset-reachable-under-a-name", fmt.Sprintf("the dataset with internal id %d was deleted (acknowledged) while a rename and a long batch were in flight on it; afterwards it is reachable as %q and lists %d entities", ds.InternalID, n.Name, len(l)), nil, n.Name, nil)
+			return
+		}
+	}
+	ctx.Out.Stat("deleted_datasets_checked_unreachable", int64(len(dead)))
+}
+
+// c05NoAdjacentDuplicates: the flip entity is only ever written with one of two contents; whatever the order in which
+// the concurrent writers were served, a write identical to the version current at that moment adds nothing, so no two
+// adjacent versions of it in a dataset's feed are identical.
+func c05NoAdjacentDuplicates(ctx *Ctx, id, prop string, core *hub.Core) {
+	for _, d := range []string{"da", "db"} {
+		ds := core.Dsm.GetDataset(d)
+		if ds == nil {
+			continue
+		}
+		feed, _, err := obs.Feed(core.Store, ds, 0, nil, false)
+		if err != nil {
+			continue
+		}
+		prev := ""
+		n := 0
+		for i := range feed {
+			if feed[i].ID != c05FlipID {
+				continue
+			}
+			n++
+			cur := model.CanonString(&feed[i].Ent)
+			if cur == prev {
+				ctx.Out.Viol(id, prop, "identical-version-appended-under-concurrency", fmt.Sprintf("dataset %s: two adjacent versions of %s in the feed are identical (%s): a write identical to the current version was appended (it was compared with a version that was no longer current)", d, c05FlipID, tagOf(&feed[i])), nil, cur, nil)
+				return
+			}
+			prev = cur
+		}
+		ctx.Out.Stat("flip_entity_versions_checked", int64(n))
 	}
 }
